@@ -1,6 +1,6 @@
 from __future__ import annotations
 
-from typing import TYPE_CHECKING
+from typing import TYPE_CHECKING, Any
 
 from ase.units import fs
 
@@ -48,6 +48,24 @@ class Verlet(BaseIntegrator):
         self.dt = dt * fs
         self.max_steps = max_steps
         self.apply_constraints = apply_constraints
+
+    def to_dict(self) -> dict[str, Any]:
+        """
+        Convert the `Verlet` integrator to a dictionary representation.
+
+        Returns
+        -------
+        dict[str, Any]
+            The dictionary representation of the `Verlet` integrator. The time step is stored as an attribute, in ASE units as the object holds it, so that it is restored exactly.
+        """
+        return {
+            **super().to_dict(),
+            "kwargs": {
+                "max_steps": self.max_steps,
+                "apply_constraints": self.apply_constraints,
+            },
+            "attributes": {"dt": self.dt},
+        }
 
     def integrate(self, context: DisplacementContext) -> None:
         """
